@@ -64,6 +64,38 @@ def zero_vec(v: Any) -> bool:
     return all(R.is_zero(x) for x in v)
 
 
+def combo_inputs(combo: tuple) -> list[Any]:
+    """the expression and the equation form of a linear combination, as check_combo builds them"""
+    lib_terms = [COEFFS[cn] * vec_term(vn)[0] for cn, vn in combo]
+    forms = [sp.Add(*lib_terms)]
+    if len(lib_terms) >= 2:
+        forms.append(sp.Eq(sp.Add(*lib_terms[:1]), -sp.Add(*lib_terms[1:]), evaluate=False))
+    return forms
+
+
+def evaluation_off_history(chunk: list) -> None:
+    """history: the requests of this chunk are first made while sympy's automatic evaluation is
+    switched off (whatever they answer there); the answers in normal mode must not remember that.
+    One switch per chunk: sympy empties its cache at every switch."""
+    from symplyphysics.core.experimental.solvers import solve_for_vector
+    c14._setup()
+    S = dict(zip("abcd", c14._SYMS))
+    inputs = []
+    for combo in [c for c in chunk if len(c) <= 2][:5]:
+        try:
+            inputs.extend(combo_inputs(combo))
+        except Exception:  # pylint: disable=broad-except
+            pass
+    with sp.evaluate(False):
+        for inp in inputs:
+            for unknown in "ab":
+                try:
+                    with time_limit(0.5):
+                        solve_for_vector(inp, S[unknown])
+                except BaseException:  # pylint: disable=broad-except
+                    pass
+
+
 def check_combo(combo: tuple) -> list[tuple[str, str]]:
     from symplyphysics.core.experimental.solvers import solve_for_vector
     c14._setup()
@@ -252,6 +284,7 @@ def _work(chunk: Any) -> dict:
         payload: Any = "other"
     else:
         cases = []
+        evaluation_off_history(chunk)
         for combo in chunk:
             try:
                 with time_limit(60):
